@@ -245,18 +245,10 @@ func NewUpstream(addr string, opt Opt) (_ Upstream, err error) {
 			quicTransport := &quic.Transport{
 				Conn: conn,
 			}
-			// quic.Transport does not close a socket that it did not create.
-			quicCloser := closerFunc(func() error {
-				quicTransport.Close()
-				return conn.Close()
-			})
-			defer closeIfFuncErr(quicCloser)
-
 			quicConfig := newDefaultClientQuicConfig()
 			quicConfig.MaxIdleTimeout = idleConnTimeout
 
-			addonCloser = quicCloser
-			t = &h3RetryRoundTripper{rt: &http3.RoundTripper{
+			h3rt := &http3.RoundTripper{
 				TLSClientConfig: opt.TLSConfig,
 				QuicConfig:      quicConfig,
 				Dial: func(ctx context.Context, _ string, tlsCfg *tls.Config, cfg *quic.Config) (quic.EarlyConnection, error) {
@@ -267,7 +259,18 @@ func NewUpstream(addr string, opt Opt) (_ Upstream, err error) {
 					return quicTransport.DialEarly(ctx, ua, tlsCfg, cfg)
 				},
 				MaxResponseHeaderBytes: 4 * 1024,
-			}}
+			}
+			// quic.Transport does not close a socket that it did not create,
+			// and it does not tell the peers that the connections are gone:
+			// close them via the RoundTripper first.
+			quicCloser := closerFunc(func() error {
+				h3rt.Close()
+				quicTransport.Close()
+				return conn.Close()
+			})
+			defer closeIfFuncErr(quicCloser)
+			addonCloser = quicCloser
+			t = &h3RetryRoundTripper{rt: h3rt}
 		} else {
 			tracker := newConnTracker()
 			t1 := &http.Transport{
